@@ -42,7 +42,7 @@ fn targeted(rng: &mut Rng, p: &Pools) -> Term {
         (l[0], l[1], l[2])
     };
     let (e1, e2) = ("dev", "test");
-    match rng.below(8) {
+    match rng.below(12) {
         // ≥3 edges whose children coincide only after the op (and / restrict)
         0 => Term::and(
             Term::or(Term::and(s(key, 4, a), x(e1)), Term::and(Term::and(s(key, 3, a), s(key, 4, b)), x(e2))),
@@ -62,6 +62,17 @@ fn targeted(rng: &mut Rng, p: &Pools) -> Term {
         4 => Term::Cp(gen_bd(rng, p), gen_bd(rng, p), Box::new(Term::or(x(e1), Term::and(s(key, 0, a), v(0, 5, "3.8"))))),
         5 => Term::Cp(gen_bd(rng, p), gen_bd(rng, p), Box::new(Term::and(v(0, 5, "3.8"), Term::or(v(1, 2, "3.9"), s(key, 1, b))))),
         6 => Term::Sp(gen_bd(rng, p), gen_bd(rng, p), Box::new(Term::and(v(0, 5, "3.8"), Term::or(v(1, 2, "3.9"), v(1, 5, "3.10"))))),
+        // implementation_version with >= 3 edges above python_full_version: after the requires-python surgery one
+        // branch becomes equal to a neighbour that the surgery leaves unchanged (a fixed point), in either direction
+        7 => Term::Sp(Bd::I("3.8".into()), Bd::U, Box::new(Term::or(Term::and(v(0, 2, "1"), v(1, 5, "3.6")), Term::and(v(0, 5, "1"), v(0, 2, "2"))))),
+        8 => Term::Cp(Bd::I("3.8".into()), Bd::U, Box::new(Term::or(Term::and(v(0, 2, "1"), v(1, 5, "3.6")), Term::and(Term::and(v(0, 5, "1"), v(0, 2, "2")), v(1, 5, "3.8"))))),
+        9 => Term::Sp(Bd::I("3.8".into()), Bd::U, Box::new(Term::or(Term::and(v(0, 2, "1"), x(e1)), Term::or(Term::and(Term::and(v(0, 5, "1"), v(0, 2, "2")), Term::and(v(1, 5, "3.6"), x(e1))), Term::and(v(0, 5, "2"), v(1, 2, "3.7")))))),
+        10 => {
+            let (op1, op2) = (*rng.pick(&[2usize, 3, 4, 5]), *rng.pick(&[2usize, 3, 4, 5]));
+            let (l1, l2) = (*rng.pick(&["3.6", "3.8", "3.9", "3.12"]), *rng.pick(&["3.6", "3.8", "3.9", "3.12"]));
+            let body = Term::or(Term::and(v(0, 2, "1"), v(1, op1, l1)), Term::or(Term::and(Term::and(v(0, 5, "1"), v(0, 2, "2")), v(1, op2, l2)), Term::and(v(0, 5, "2"), s(key, 0, a))));
+            if rng.chance(1, 2) { Term::Sp(gen_bd(rng, p), gen_bd(rng, p), Box::new(body)) } else { Term::Cp(gen_bd(rng, p), gen_bd(rng, p), Box::new(body)) }
+        }
         _ => Term::and(
             Term::or(Term::and(v(1, 2, "3.8"), x(e1)), Term::and(Term::and(v(1, 5, "3.8"), v(1, 2, "3.9")), x(e2))),
             Term::and(x(e1), x(e2)),
@@ -478,6 +489,20 @@ pub fn run(out: &mut Out, tier: &str, seed: u64, prop: &str) {
                     let h = hand_eval(&it.tree, e);
                     if h != Some(e.eval(&it.tree)) {
                         out.oracle_fail("C20", &format!("choosing edges by hand gives {:?}, evaluate() gives {}", h, e.eval(&it.tree)), serde_json::json!({"term": it.term.line(), "env": e.line()}));
+                    }
+                    // the same with pre / post / dev / local versions in the environment (edges are release-only, the
+                    // environment is not): evaluate() must still follow the one edge that contains the version
+                    for suffix in ["rc1", ".post1", ".dev0", "+local.1", "a0"] {
+                        let mut e2 = CEnv { vers: e.vers.clone(), strs: e.strs.clone(), extras: e.extras.clone() };
+                        e2.vers[0] = format!("{}{}", e.vers[0], suffix);
+                        e2.vers[1] = format!("{}{}", e.vers[1], suffix);
+                        if pep440_rs::Version::from_str(&e2.vers[1]).is_err() { continue; }
+                        let h2 = hand_eval(&it.tree, &e2);
+                        let ev = e2.eval(&it.tree);
+                        out.stat("c20.decorated_env_walks");
+                        if h2 != Some(ev) {
+                            out.oracle_fail("C20", &format!("environment with a decorated version: choosing edges by hand gives {:?}, evaluate() gives {}", h2, ev), serde_json::json!({"term": it.term.line(), "env": e.line(), "python_full_version": e2.vers[1], "implementation_version": e2.vers[0]}));
+                        }
                     }
                 }
             }
